@@ -8,6 +8,24 @@ from hypothesis import strategies as st
 
 from vf import core
 
+
+class quiet_stdout:
+	"""Swallows what the -v / -p options print (fd level is not needed: everything goes through sys.stdout)."""
+
+	def __init__(self, on: bool) -> None:
+		self.on = on
+
+	def __enter__(self):
+		import io
+		import sys
+		self.saved = sys.stdout
+		if self.on:
+			sys.stdout = io.StringIO()
+
+	def __exit__(self, *a):
+		import sys
+		sys.stdout = self.saved
+
 PROPERTY = 'C06'
 LEVEL = 'exploration'
 RULE = ('scratch CLI projects (module graphs pair/chain/diamond/4-chain spread over two input directories, output_dirs built from an injective family: a glob rule "{in}/*:{out}", a prefix rule "{in}/:{out}" and the fallback); '
@@ -42,8 +60,10 @@ def cases(draw, exclude: frozenset = frozenset()):
 		mode = rnd.choice(['remove', 'hash', 'garble', 'app-version', 'transpiler-version', 'module-path', 'transpiler-module'])
 		if 'garbled-header' in exclude and mode == 'garble':
 			mode = 'hash'
-		ops.append([k, m, visible, rnd.randint(1, 3), mode])
-	ops.append(['run', mods[0], 0, 1, 'remove'])
+		# the reporting options of the command line (-v log of every handler, -p profile) must not change what a run writes
+		opts = rnd.choice(['', '', '', '-v', '-v', '-p']) if k == 'run' else ''
+		ops.append([k, m, visible, rnd.randint(1, 3), mode, opts])
+	ops.append(['run', mods[0], 0, 1, 'remove', rnd.choice(['', '', '-v'])])
 	# overlapping input globs: one module file is also named explicitly, so it is listed twice
 	return {'graph': gname, 'pkg': pkg, 'ops': ops, 'also_listed': rnd.choice(mods) if rnd.random() < 0.4 else None}
 
@@ -95,7 +115,8 @@ def judge(scratch: str, case: dict) -> tuple[list[tuple[str, str]], dict]:
 		def mtimes(root: str) -> dict:
 			return {k: os.stat(os.path.join(root, k)).st_mtime_ns for k in out_tree(root)}
 
-		for kind, m, visible, invisible, mode in case['ops']:
+		for op in case['ops']:
+			kind, m, visible, invisible, mode = op[:5]
 			if fails:
 				break
 			step += 1
@@ -142,7 +163,8 @@ def judge(scratch: str, case: dict) -> tuple[list[tuple[str, str]], dict]:
 				forced = kind == 'run_f'
 				runs += 1
 				info['runs'] += 1
-				trace.append('run -f' if forced else 'run')
+				opts = op[5] if len(op) > 5 and not forced else ''
+				trace.append('run -f' if forced else f'run {opts}'.strip())
 				copy = os.path.join(work, f'copy{step}')
 				P.copy_project(proj, copy, with_cache=True)
 				try:
@@ -153,7 +175,8 @@ def judge(scratch: str, case: dict) -> tuple[list[tuple[str, str]], dict]:
 				shutil.rmtree(copy, ignore_errors=True)
 				before, before_m = out_tree(proj), mtimes(proj)
 				try:
-					P.run_cli(proj, force=forced)
+					with quiet_stdout(bool(opts)):
+						P.run_cli(proj, force=forced, extra=[opts] if opts else None)
 					got = out_tree(proj)
 				except Errors.Error as e:
 					got = f'ERROR {type(e).__name__}'
@@ -219,7 +242,7 @@ def shard(ctx: core.Ctx) -> None:
 		fails, info = judge(ctx.scratch, case)
 		ctx.extra['runs'] = ctx.extra.get('runs', 0) + info['runs']
 		ctx.case([case['graph'], case['pkg'], case['ops']], info['edit_between_runs'] or info['repair_before_run'],
-			sample={'graph': case['graph'], 'dirs': case['pkg'], 'history': [f'{o[0]}({o[1]})' if o[0] not in ('run', 'run_f') else o[0] for o in case['ops']]},
+			sample={'graph': case['graph'], 'dirs': case['pkg'], 'history': [f'{o[0]}({o[1]})' if o[0] not in ('run', 'run_f') else f'{o[0]} {o[5] if len(o) > 5 else ""}'.strip() for o in case['ops']]},
 			labels=['history', case['graph']] + (['module-listed-twice'] if case.get('also_listed') else []) + [k for k in ('edit_between_runs', 'repair_before_run') if info[k]])
 		for sig, detail in fails:
 			ctx.fail(sig, detail, case)
